@@ -222,7 +222,7 @@ def offending_sites(ctx):
             "(filter (fun h => negb (hasher_ok h)) c06_hasher_sites)).\n"
             "Eval vm_compute in (string_hash_fixed c06_hasher_sites, forbid_ok c06_forbid_unsafe, cache_per_call_ok, gen_fns_ok,\n"
             "  c06_cache_new_sites, c06_cache_escapes, filter (fun g => negb (gf_shape_ok g)) c06_gen_id_fns).\n")
-    rc, out = ctx.coq_eval('c06_offenders', "From Coq Require Import String List Bool.\nImport ListNotations.\n" + body, SITE_IMPORTS)
+    rc, out = ctx.coq_eval('c06_offenders', "From Coq Require Import String List Bool ZArith.\nImport ListNotations.\nLocal Open Scope string_scope.\nLocal Open Scope Z_scope.\n" + body, SITE_IMPORTS)
     if rc != 0:
         return "ledger could not be evaluated: " + out[-400:]
     out = re.sub(r"\s+", " ", out)
@@ -234,6 +234,15 @@ def offending_sites(ctx):
         if p not in ('[]', 'nil') and not (lab.startswith('flags') and p.startswith('(true, true, true, true')):
             res.append("%s: %s" % (lab, p[:700]))
     return " | ".join(res) if res else "(no ledger entry is rejected)"
+
+
+def coqchk(ctx):
+    """thorough tier: re-check the compiled closure of Props/C06.vo with the independent checker"""
+    rc, out = vlib.run(['coqchk', '-o', '-silent', '-Q', vlib.COQ, 'RV', 'RV.Props.C06'], timeout=1500)
+    ok = rc == 0 and re.search(r"Axioms:\s*<none>", out) is not None
+    ctx.cov['coqchk'] = 'ok' if ok else 'FAILED'
+    if not ok:
+        ctx.violation("coqchk rejects the compiled proofs of C06 (or reports axioms)", dict(log=out[-2000:]), found_input=False)
 
 
 def run(ctx):
@@ -254,6 +263,8 @@ def run(ctx):
     broken = ctx.translate()
     res = ctx.coq_props()
     proof_ok = res['ok'] and not broken
+    if proof_ok and ctx.tier == 'thorough':
+        coqchk(ctx)
     st = (ctx.status or {}).get('tables', {}).get('c06_sites', {})
     ctx.cov['ledger'] = {k: st.get(k) for k in ('files', 'hash_sites', 'shared_sites', 'hasher_sites', 'unresolved')}
     for k in ('hash_sites', 'shared_sites', 'hasher_sites', 'files'):
